@@ -318,7 +318,7 @@ func TestC09(t *testing.T) {
 						kinds = append(kinds, strings.Join(k, "+"))
 					}
 					sort.Strings(kinds)
-					cls := pr.conf + ":" + strings.Join(kinds, "||")
+					cls := pr.conf + ":" + strings.Join(kinds, "||") + ":" + lcPreemptedIn(x)
 					if noresp {
 						out = append(out, vfail{"linearizability", "request-got-no-response:" + cls, fmt.Sprintf("program %s: history %v (a request panicked inside the gateway or failed)", pr, hs)})
 					} else if !c09linearizable(kv, initial) {
